@@ -76,7 +76,7 @@ def driver_op_kinds():
     import os
     import re
     src = open(os.path.join(os.path.dirname(os.path.dirname(os.path.abspath(__file__))), "lean", "FcpptModel", "Drv", "C04.lean")).read()
-    return sorted(set(re.findall(r'^  \| \["([a-z0-9_.]+)"', src, flags=re.M)))
+    return sorted(set(re.findall(r'^  \| \["([a-z0-9_.]+)"', src, flags=re.M)) - {"all9"})
 
 
 def extra_checks(binp, rng, tier, ev):
@@ -461,6 +461,15 @@ def api_batches(rng, tier):
                 note="to_optional_ref (written through for non-const) free get_unsafe (read, written) operator<< type_info "
                      "current_type_name is_invalid; dynamic_cast_ with 8 type lists (all orders of a base and its derived class) "
                      "x 4 dynamic types, const flavour")
+
+    v2 = ["A0", "A1", "A2", "T", "V"]
+    ops = [f"vv.assign {d} {s_} f" for d, s_ in prod(v2, v2)] + [f"vv.assign {d} T t" for d in v2]
+    ops += [f"vv.obs {v} {k}" for v, k in prod(v2, ["invalid", "index", "holds", "to_opt", "to_opt_ref", "apply", "match", "tinfo", "out"])]
+    ops += [f"vv.cmp {a} {b}" for a, b in prod(v2, v2)]
+    ops += [f"vv.compare {a} {b} {x}" for a, b, x in prod(v2, v2, "tf")]
+    yield Batch("valueless-variant", ops, exhaustive=True,
+                note="variant<A, thrower>: assignment whose copy construction throws leaves the target valueless (is_invalid); every "
+                     "observer / visitor / comparison on valid and valueless operands, recovery by assignment")
 
     ops = []
     cats = CATS if thorough else [r.choice(CATS)]
